@@ -22,7 +22,10 @@ def run(ctx, facts):
     ctx.rule("A1", "the user closure of compute_if_present runs only inside a validated bin-lock region", floor=2)
     ctx.rule("A2", "the value passed to the closure is loaded from Node.value inside the same region", floor=2)
     ctx.rule("A3", "the write applying the closure's result is in the same region (no unlock in between); Some and None arms both handled", floor=2)
-    ctx.rule("A4", "F: FnOnce on compute_if_present of every facade", floor=2)
+    ctx.rule("A4", "the remapping function runs at most once per call (FnOnce bound, or no second call reachable)", floor=2)
+    ctx.rule("A5", "compute_if_present: lock -> re-validate -> act, with no link of the bin loaded before the lock carried into the section (rule L1 of C01)", floor=2)
+    from .rules_c01 import rule_l1
+    rule_l1(ctx, facts, rule="A5", only=("map::HashMap::compute_if_present",))
     cip = facts.body("map::HashMap::compute_if_present")
     fl = flow(cip)
     vs = [v for v in validated_regions(cip) if bin_lock_region(v.region)]
@@ -78,10 +81,23 @@ def run(ctx, facts):
                  ("Some arm (value swap) missing inside the region" if not has_swap else
                   "None arm (unlink) missing inside the region" if not has_unlink else
                   "%s at %s happens after the bin lock was released" % (late[0][1], cip.span_at(late[0][0]))))
+    # A4: at most once -- by the type (FnOnce: the call consumes the closure) or, for a weaker bound, by the shape of the body: no call of
+    # the remapping function is reachable from after another one (retry loops included)
     for b in facts.bodies:
         if b.name == "compute_if_present" and b.kind != "Closure" and b.exported:
             import re
             fp = [p for p in b.predicates if re.search(r"(^|> )F: ", p) and "Sized" not in p]
-            ok = any(re.search(r"F: (std::ops::)?FnOnce[(<]", p) for p in fp)
-            bad = [p for p in fp if re.search(r"F: (std::ops::)?(FnMut|Fn)[(<]", p)]
-            ctx.inst("A4", b, "F: FnOnce", b.span, ok and not bad, "bound by FnOnce" if ok and not bad else "the remapping function is not bound by FnOnce: %s" % fp)
+            once_by_type = any(re.search(r"F: (std::ops::)?FnOnce[(<]", p) for p in fp) and not [
+                p for p in fp if re.search(r"F: (std::ops::)?(FnMut|Fn)[(<]", p)]
+            ucs = [c for c in b.calls if user_closure_call(c) and not b.is_cleanup(c.b)]
+            again = None
+            for c in ucs:
+                r = reach(b, after(b, c.point, label="ret"))
+                hit = [x for x in ucs if x.point in r]
+                if hit:
+                    again = (c, hit[0])
+                    break
+            ok = once_by_type or again is None
+            ctx.inst("A4", b, "remapping function runs at most once", b.span, ok,
+                     ("bound by FnOnce" if once_by_type else "no call of the remapping function is reachable from after another one (%d site(s))" % len(ucs)) if ok else
+                     "the remapping function can run again at %s after it ran at %s (and its bound does not forbid it)" % (again[1].span, again[0].span))
